@@ -42,7 +42,7 @@ ASSUMPTIONS = [
     "cores not requested may only change from wait to run, through the "
     "start signal addressed to their application id",
 ]
-FLOORS = {"options_through_context": 500, "wait_false_through_context": 150, "fill_identifier_advanced": 500, "default_left_out": 400, "filename_and_targets_form": 100, "load_checked": 300, "fill_wellformed": 500, "retry_narrowed": 100,
+FLOORS = {"earlier_failed_load_of_an_older_build": 100, "options_through_context": 500, "wait_false_through_context": 150, "fill_identifier_advanced": 500, "default_left_out": 400, "filename_and_targets_form": 100, "load_checked": 300, "fill_wellformed": 500, "retry_narrowed": 100,
           "loading_error_exact": 40, "returned_all_loaded": 150,
           "count_mode": 80, "percore_mode": 80}
 ANCHORS = [("rig.machine_control.machine_controller",
@@ -217,6 +217,10 @@ def run(case, ctx):
         ctx.mark_nontrivial()
 
 
+def too_big(case):
+    return any(-(-b["size"] // case["buf"]) > 255 for b in case["bins"])
+
+
 def run_(case, ctx):
     m = M.Machine(case["w"], case["h"], dead=[tuple(d) for d in case["dead"]],
                   buffer_size=case["buf"])
@@ -300,6 +304,42 @@ def run_(case, ctx):
                     amap[path][xy] = shared.setdefault(k_, cs)
         snapshot = {k: {xy: set(cs) for xy, cs in v.items()}
                     for k, v in amap.items()}
+        psel = (len(images[0]) // 4 + case["app_id"] + case["n_tries"]) % 5
+        if psel < 2 and not too_big(case):
+            # earlier today the same controller loaded an OLDER BUILD of the
+            # same files (and, psel 0, the load failed: the machine missed
+            # every fill); the files have been rebuilt since and the machine
+            # reset.  What is judged is the load of the files as they are now
+            ctx.hit("earlier_load_of_an_older_build" if psel else
+                    "earlier_failed_load_of_an_older_build")
+            for path, img in zip(names, images):
+                with open(path, "wb") as f:
+                    f.write(bytes(b ^ 0x3c for b in img) +
+                            b"old!" * (1 + len(img) % 3))
+            m.miss_fn = (lambda fill: set(m.chips)) if psel == 0 else \
+                (lambda fill: set())
+            try:
+                mc.load_application(
+                    {k_: {xy: set(cs) for xy, cs in v.items()}
+                     for k_, v in amap.items()}, app_id=app_id, n_tries=2)
+            except r.mcm.SpiNNakerLoadingError:
+                pass
+            except Exception as e:
+                raise Violation("unexpected-exception", "earlier load: %s: %s"
+                                % (type(e).__name__, e),
+                                protocol=m.protocol_errors[:3])
+            for xy, c_ in m.chips.items():
+                st, ap, im = before[xy]
+                for q in range(len(st)):
+                    c_.core_image[q] = im[q]
+                    m.set_core(xy, q, st[q], ap[q])
+            del m.fills[:]
+            del m.protocol_errors[:]
+            m.last_fill_id = None
+            m.miss_fn = miss_fn
+            for path, img in zip(names, images):
+                with open(path, "wb") as f:
+                    f.write(img)
         try:
             kw = dict(app_id=app_id, n_tries=case["n_tries"],
                       wait=case["wait"], use_count=case["use_count"])
